@@ -634,3 +634,38 @@ def value_grid_programs(export=("ExportJson", "ExportProvn")):
                     ops.append([e, "0"])
                 progs_.append(ops)
     return progs_
+
+
+def subtype_programs(export=("ExportJson", "ExportProvn")):
+    """fixed programs: records typed with PROV subtype names — one, two or three subtypes of the record's own base kind,
+    subtypes of another base kind, a subtype next to a custom type"""
+    EXU = "http://example.org/"
+    fam = {"Agent": ["Person", "Organization", "SoftwareAgent"], "Entity": ["Plan", "Collection", "EmptyCollection", "Bundle"],
+           "Derivation": ["Revision", "Quotation", "PrimarySource"]}
+    ops = [["NewDoc"], ["AddNs", ["d", "0"], "ex", EXU]]
+    n = 0
+
+    def rec(kind, types, extra=()):
+        nonlocal n
+        n += 1
+        attrs = [[["Q", "prov", PROV, "type"], ["qn", "prov", PROV, t]] for t in types]
+        attrs += [[["Q", "prov", PROV, "type"], v] for v in extra]
+        if kind == "Derivation":
+            attrs += [[["Q", "prov", PROV, "generatedEntity"], ["str", "ex:e1"]], [["Q", "prov", PROV, "usedEntity"], ["str", "ex:e2"]]]
+        ops.append(["NewRecord", ["d", "0"], kind, ["S", "ex:r%d" % n], attrs])
+    for kind, subs in fam.items():
+        for i in range(len(subs)):
+            rec(kind, [subs[i]])
+            rec(kind, [subs[i], subs[(i + 1) % len(subs)]])
+            rec(kind, [subs[i]], extra=[["qn", "ex", EXU, "Custom"]])
+            rec(kind, [subs[i]], extra=[["str", "prov:" + subs[i]]])
+        rec(kind, subs)
+        other = [t for k2, ss in fam.items() if k2 != kind for t in ss]
+        for t in other[:4]:
+            rec(kind, [t])
+            rec(kind, [subs[0], t])
+    rec("Activity", ["Person"])
+    rec("Activity", ["Plan", "Revision"])
+    for e in export:
+        ops.append([e, "0"])
+    return [ops]
